@@ -1,6 +1,7 @@
 package gofakes3
 
 import (
+	"bytes"
 	"io"
 	"io/ioutil"
 	"strconv"
@@ -35,16 +36,27 @@ func parseClampedInt(in string, defaultValue, min, max int64) (int64, error) {
 // It also reports S3-specific errors in certain conditions, like
 // ErrIncompleteBody.
 func ReadAll(r io.Reader, size int64) (b []byte, err error) {
-	var n int
-	b = make([]byte, size)
-	n, err = io.ReadFull(r, b)
-	if err == io.ErrUnexpectedEOF {
+	if size < 0 {
+		return nil, ErrIncompleteBody
+	}
+
+	// The size usually comes straight from a request header. Preallocate for
+	// it, but only up to a point: a client must not be able to make us
+	// allocate (or fail to allocate) memory for bytes it never sends.
+	prealloc := size
+	if prealloc > readAllMaxPrealloc {
+		prealloc = readAllMaxPrealloc
+	}
+	buf := bytes.NewBuffer(make([]byte, 0, prealloc))
+
+	n, err := io.CopyN(buf, r, size)
+	if err == io.EOF || err == io.ErrUnexpectedEOF {
 		return nil, ErrIncompleteBody
 	} else if err != nil {
 		return nil, err
 	}
 
-	if n != int(size) {
+	if n != size {
 		return nil, ErrIncompleteBody
 	}
 
@@ -54,5 +66,9 @@ func ReadAll(r io.Reader, size int64) (b []byte, err error) {
 		return nil, ErrIncompleteBody
 	}
 
-	return b, nil
+	return buf.Bytes(), nil
 }
+
+// readAllMaxPrealloc is the most memory ReadAll sets aside before any data
+// has arrived.
+const readAllMaxPrealloc = 32 << 20
